@@ -282,6 +282,17 @@ def held_reducer_program():
                   on("A", [S("signal", "go")]) + on("B", [O("stop"), O("get_state"), O("metrics")])}
 
 
+def default_capacity_program():
+    """A (built first, default capacity) uses subscribed(), whose channel has the library's default capacity
+    whatever other stores were built meanwhile; B has capacity 1"""
+    from instances import D, O, S
+    def on(st, ops):
+        return [dict(o, st=st) for o in ops]
+    return {"c1": on("A", [dict(S("subscribed", "s2"), via="default"), D(1), D(2), D(3, "trait")]),
+            "c2": on("B", [D(1, "trait"), D(2)]),
+            "c3": on("A", [O("stop"), O("get_state"), O("metrics")]) + on("B", [O("stop"), O("get_state"), O("metrics")])}
+
+
 def c19(ctx, finish):
     import checkmain
     import instances
@@ -311,22 +322,26 @@ def c19(ctx, finish):
                    [("block", 2, "block", 2), ("oldest", 1, "block", 2), ("latest", 1, "oldest", 1), ("block", 1, "latest", 2)]
         acts[5] = 2
         variants.append(("block", 2, "block", 2, "held"))
+        variants.append(("block", 16, "block", 1, "defcap"))
         reps = 60 if q else 400
         for vi, var in enumerate(variants):
             pa, ca, pb, cb = var[:4]
-            held = len(var) > 4      # run-time registration in one store while the other's reducer is held up
-            progs = [held_reducer_program()] if held else two_store_programs(ctx.tier)
+            held = len(var) > 4 and var[4] == "held"   # run-time registration in one store while the other's reducer is held up
+            defcap = len(var) > 4 and var[4] == "defcap"
+            progs = [held_reducer_program()] if held else [default_capacity_program()] if defcap else two_store_programs(ctx.tier)
             mk = lambda name, pol, cap: families._i(name, [{"c1": [], "c2": [], "c3": []}], acts, cap=cap, pol=pol, subs=subs,
                                                     red_script={"r1": {0: instances.red("D"), 1: instances.red("D", instances.eff("task")),
                                                                        2: instances.red("G")},
                                                                 "r2": {0: instances.red("D"), 1: instances.red("D"), 2: instances.red("D")}},
                                                     max_tasks=4, cb_reads=False, kinds=(0, 1, 2), fine_reg=held)
             ia, ib = mk("twoA%d" % vi, pa, ca), mk("twoB%d" % vi, pb, cb)
+            if defcap:
+                ia["subs"] = dict(ia["subs"], s2={"kind": "chan", "cap": 16, "pol": "block"})
             ca_, cb_ = instances.harness_config(ia), instances.harness_config(ib)
             if vi % 2 == 0:       # two stores with the same, non-default name
                 ca_["name"] = cb_["name"] = "session"
             doc = {"configs": {"A": ca_, "B": cb_},
-                   "runs": [{"id": i, "prog": progs[i % len(progs)]} for i in range(reps if not held else max(10, reps // 4))]}
+                   "runs": [{"id": i, "prog": progs[i % len(progs)]} for i in range(reps if not (held or defcap) else max(10, reps // 4))]}
             path = os.path.join(d, "two%d.json" % vi)
             json.dump(doc, open(path, "w"))
             tr = os.path.join(d, "two%d.trace.ndjson" % vi)
